@@ -423,6 +423,7 @@ func shortAtomsFrom(pa *Path, from int) string {
 // owsTrimmers implements R14.5.
 func owsTrimmers(ctx *Ctx, r *Result) {
 	p := ctx.P
+	trimComposition(ctx, r)
 	r.rule("R14.5", "trimLeftOWS / trimRightOWS: a successfully trimmed result is empty or its first (last) byte was tested and is not optional whitespace", 2)
 	for _, side := range []string{"Left", "Right"} {
 		name := "trim" + side + "OWS"
@@ -459,22 +460,58 @@ func owsTrimmers(ctx *Ctx, r *Result) {
 				continue // len(result) ≤ 0
 			}
 			// the byte at the trimmed end of the result
-			var cands []string
-			one := func(base, idx string) { cands = append(cands, "index("+base+", "+idx+")") }
+			// (positions are compared as linear forms: len(s)-1-i and len(s)-i-1
+			// are the same byte)
+			type cand struct {
+				base string
+				idx  lin
+			}
+			var cands []cand
+			one := func(base *Term, idx lin) { cands = append(cands, cand{base.Key(), idx}) }
 			if side == "Left" {
-				one(res.Key(), "0")
+				one(res, linConst(0))
 				if res.Op == "slice" && !res.Args[1].IsConst("_") {
-					one(res.Args[0].Key(), res.Args[1].Key())
+					one(res.Args[0], z.lin(res.Args[1]))
 				}
 			} else {
-				one(res.Key(), "bin:-(len:builtin.len("+res.Key()+"), 1)")
+				one(res, z.linLen(res).add(linConst(1), -1))
 				if res.Op == "slice" && !res.Args[2].IsConst("_") {
-					one(res.Args[0].Key(), "bin:-("+res.Args[2].Key()+", 1)")
+					one(res.Args[0], z.lin(res.Args[2]).add(linConst(1), -1))
 				}
 			}
 			tested := false
 			for _, c := range cands {
-				if (pa.Val("bin:==("+c+", 9)") == -1 && pa.Val("bin:==("+c+", 32)") == -1) || pa.Val("call:headers.isOWS("+c+")") == -1 {
+				not9, not32, notOWS := false, false, false
+				for _, a := range pa.Atoms {
+					if a.Pos {
+						continue
+					}
+					var ix *Term
+					which := ""
+					switch {
+					case a.T.Op == "bin" && a.T.Name == "==" && len(a.T.Args) == 2 && a.T.Args[0].Op == "index" && a.T.Args[1].Op == "const":
+						ix, which = a.T.Args[0], a.T.Args[1].Name
+					case a.T.Op == "call" && a.T.Name == "headers.isOWS" && len(a.T.Args) == 1 && a.T.Args[0].Op == "index":
+						ix, which = a.T.Args[0], "ows"
+					default:
+						continue
+					}
+					if len(ix.Args) != 2 || ix.Args[0].Key() != c.base {
+						continue
+					}
+					if d := z.lin(ix.Args[1]).add(c.idx, -1); !d.isConst() || d.c != 0 {
+						continue
+					}
+					switch which {
+					case "9":
+						not9 = true
+					case "32":
+						not32 = true
+					case "ows":
+						notOWS = true
+					}
+				}
+				if (not9 && not32) || notOWS {
 					tested = true
 				}
 			}
@@ -490,3 +527,62 @@ func owsTrimmers(ctx *Ctx, r *Result) {
 }
 
 var _ = types.Typ
+
+// trimComposition (R14.7): TrimOWS is its two one-sided trimmers applied one
+// after the other, nothing else: it reports success only for the empty string
+// as it is, or for the result of both trimmers having succeeded on the same
+// bound; it reports failure (with the original string) exactly when one of
+// them failed.
+func trimComposition(ctx *Ctx, r *Result) {
+	p := ctx.P
+	r.rule("R14.7", "TrimOWS = trimLeftOWS ∘ trimRightOWS (either order) with the caller's bound: success only for the empty string or when both one-sided trimmers succeeded, and then with their combined result; no other path reports success", 3)
+	fn := p.Func(pkgHeaders, "TrimOWS")
+	lf, rf := p.Func(pkgHeaders, "trimLeftOWS"), p.Func(pkgHeaders, "trimRightOWS")
+	if fn == nil || lf == nil || rf == nil || len(fn.Params) != 2 {
+		r.undecided("R14.7", "TrimOWS", "anchor not found")
+		return
+	}
+	x := p.NewExec(nil)
+	paths := x.Summarize(fn)
+	r.Paths += len(paths)
+	r.fn(funcName(fn))
+	if len(x.Problems) > 0 || hasLoop(fn) {
+		r.undecided("R14.7", "TrimOWS", "not loop-free and fully summarised: "+strings.Join(x.Problems, ";"))
+		return
+	}
+	S, N := "param:"+fn.Params[0].Name(), "param:"+fn.Params[1].Name()
+	call := func(f *ssa.Function, arg string) string { return "call:" + funcName(f) + "(" + arg + ", " + N + ")" }
+	l1, r1 := call(lf, S), call(rf, S)
+	lr, rl := call(lf, r1+"#0"), call(rf, l1+"#0") // left after right, right after left
+	nOK := 0
+	for _, pa := range paths {
+		desc := "TrimOWS {" + pa.AtomString() + "}"
+		if pa.End != "return" || len(pa.Rets) != 2 || pa.Rets[1].Op != "const" {
+			r.fail("R14.7", desc, p.Pos(fn.Pos()), "the path does not return (string, constant flag)")
+			continue
+		}
+		res := pa.Rets[0].Key()
+		good, detail := true, ""
+		if pa.Rets[1].IsConst("true") {
+			nOK++
+			switch {
+			case res == S && (pa.Val("bin:==("+S+", \"\")") == 1 || pa.Val("bin:==(len:builtin.len("+S+"), 0)") == 1):
+			case res == lr+"#0" && pa.Val(r1+"#1") == 1 && pa.Val(lr+"#1") == 1:
+			case res == rl+"#0" && pa.Val(l1+"#1") == 1 && pa.Val(rl+"#1") == 1:
+			default:
+				good, detail = false, "success is reported with "+res+", which is neither the empty input nor the result of both one-sided trimmers having succeeded"
+			}
+		} else {
+			failed := pa.Val(r1+"#1") == -1 || pa.Val(l1+"#1") == -1 || pa.Val(lr+"#1") == -1 || pa.Val(rl+"#1") == -1
+			if !failed {
+				good, detail = false, "failure is reported although no one-sided trimmer failed"
+			} else if res != S {
+				good, detail = false, "on failure the original string is not returned: "+res
+			}
+		}
+		r.check(good, "R14.7", desc, p.Pos(fn.Pos()), detail, 1)
+	}
+	if nOK < 1 {
+		r.undecided("R14.7", "TrimOWS", fmt.Sprintf("%d success paths found, expected at least the trimmed path", nOK))
+	}
+}
